@@ -85,7 +85,7 @@ def levels_for(W, rng, dense_upto=16):
         return list(range(0, W))
     base = {0, 1, 2, 3, W // 2 - 1, W // 2, W // 2 + 1, W - 3, W - 2, W - 1, 7, 8, 9, 31, 32, 33, 63, 64, 65}
     base = {x for x in base if 0 <= x < W}
-    while len(base) < 18:
+    while len(base) < min(18, W):
         base.add(rng.randrange(W))
     return sorted(base)
 
@@ -219,6 +219,8 @@ def gen_reader_cases(rng, tier, with_pos):
                 n = rng.randrange(65)
                 ops.append([10, n]); pos += n
             elif k < 0.5:
+                if not strict and (pname != "random" and pname != "ones" or pos is None or pos > total - 300):
+                    continue     # read_unary into a zero-extended tail never returns
                 ops.append([11]); pos = None
             elif k < 0.65:
                 n = rng.randrange(1, (Wb if W else 32) + 1)
@@ -265,7 +267,9 @@ def gen_C07(rng, tier):
                     [0, 1, Wb - 1, Wb, Wb + 1, 2 * Wb, total - Wb, total - 1, total] + [rng.randrange(total + 1) for _ in range(10)]))
                 for p in targets:
                     for name, ops in (("rbits", [[10, 11]]), ("runary", [[11]]), ("peek", [[13, 3]]), ("skip", [[12, 9]]),
-                                      ("code", [[15, 1, 0, 1]])):
+                                      ("code", [[15, 1, 0, 1 if W != 8 else 0]])):
+                        if not strict and name in ("runary", "code") and p > total - 2 * Wb:
+                            continue     # unary scan into the zero-extended tail never returns
                         cases.append(Case([world_hdr(E, rW=W, rstrict=strict, rbackend=rb), data] +
                                           [[10, 5], [18, p], [17]] + ops + [[17]], "seek/%s/W%d" % (name, W)))
     return cases
